@@ -225,6 +225,12 @@ pub fn gen_case(t: &mut Tape) -> Case {
     if supertrait {
         sups.push("Sup");
     }
+    // a supertrait that `Impl<T>` has for some `T` only (the user implements it for `Impl<App>`, not for every `Impl<T>`):
+    // the impl for `Impl<T>` can only be for those that have it
+    let sup_for_some = supertrait && !dynamic && t.chance(1, 4);
+    if sup_for_some {
+        sups.push("Sup2");
+    }
     if dynamic && any_async {
         sups.push("Sync");
     }
@@ -247,6 +253,7 @@ pub fn gen_case(t: &mut Tape) -> Case {
     } else {
         src.push_str("pub trait Sup {}\nimpl<T> Sup for ::entrait::Impl<T> {}\n");
     }
+    src.push_str("pub trait Sup2 {}\n");
     // users of `delegate_by = Borrow` / `ref` typically import the std trait by name to write their impl
     if dynamic && t.flip() {
         src.push_str(if selector == 3 { "use ::std::borrow::Borrow;\n" } else { "use ::std::convert::AsRef;\nuse ::std::ops::Deref;\n" });
@@ -299,6 +306,12 @@ pub fn gen_case(t: &mut Tape) -> Case {
             dflt_override_impl = format!("    {q}fn dflt(&self, x: i32, y: i32) -> String{dflt_where} {{ {y}let __r = format!(\"OVERRIDDEN|{{}}|{{}},{{}}\", rt::addr(self), x, y); rt::trace(__r.clone()); __r }}\n");
         }
     }
+    // a provided method that takes `mut self` (and a `mut` argument) by value; the trait and what the macro generates next to it
+    // are in a module that denies `unused_mut`, as a crate under `deny(warnings)` would
+    let byval_mut = !dynamic && hygiene.is_none() && !attr_from_call && !recv_fragment && !self_fragment && t.chance(1, 5);
+    if byval_mut {
+        src.push_str("    fn consume(mut self, mut n: i32) -> i32 where Self: Sized { n += 1; let _s = &mut self; n }\n");
+    }
     src.push_str(assoc_decl);
     src.push_str(borrow_decl);
     src.push_str(phantom_decl);
@@ -309,6 +322,12 @@ pub fn gen_case(t: &mut Tape) -> Case {
         src.push_str(mut_decl);
     }
     src.push_str("}\n");
+    if byval_mut {
+        let decl = src.split_off(trait_starts_at);
+        src.push_str("mod __lint {\n#![deny(unused_mut)]\nuse super::*;\n");
+        src.push_str(&decl);
+        src.push_str("}\npub use __lint::*;\n");
+    }
     if recv_fragment {
         src.push_str("} }\n__mk_tr!(&mut Self);\n");
     }
@@ -343,7 +362,7 @@ pub fn gen_case(t: &mut Tape) -> Case {
     let ns_provider = !dynamic && (!any_async || no_send);
     let providers: Vec<(&str, &str)> = if ns_provider { vec![("Rec", "()"), ("NsRec", "::core::cell::Cell<u8>")] } else { vec![("Rec", "()")] };
     for (ty, field) in providers {
-        src.push_str(&format!("pub struct {ty} {{ pub pad: u64, pub f: {field} }}\nimpl Sup for {ty} {{}}\n{at}impl Tr{targ} for {ty} {{\n"));
+        src.push_str(&format!("pub struct {ty} {{ pub pad: u64, pub f: {field} }}\nimpl Sup for {ty} {{}}\nimpl Sup2 for {ty} {{}}\n{at}impl Tr{targ} for {ty} {{\n"));
         for m in &methods {
             src.push_str(&format!("    {} {}\n", m.sig(false).replace("u: U", u_impl), m.body()));
         }
@@ -362,7 +381,7 @@ pub fn gen_case(t: &mut Tape) -> Case {
         _ => {}
     }
     match selector {
-        0 | 1 => src.push_str("pub type App = Rec;\nfn mk_app() -> App { Rec { pad: 1, f: () } }\nfn provider(app: &App) -> &Rec { app }\n"),
+        0 | 1 => src.push_str("pub type App = Rec;\nimpl Sup2 for ::entrait::Impl<App> {}\nfn mk_app() -> App { Rec { pad: 1, f: () } }\nfn provider(app: &App) -> &Rec { app }\n"),
         2 => src.push_str(&format!(
             "pub struct App {{ pub pad: u64, pub rec: Rec }}\npub struct NsApp {{ pub rec: Rec, pub c: ::core::cell::Cell<u8> }}\n\
              impl AsRef<{dyn_ty}> for App {{ fn as_ref(&self) -> &({dyn_ty} + 'static) {{ &self.rec }} }}\n\
@@ -379,7 +398,8 @@ pub fn gen_case(t: &mut Tape) -> Case {
     src.push_str("pub struct NoProvider;\n");
     // a provider that is Sync + 'static but not Send: nothing in the statement asks for Send
     let nsend_field = "::core::marker::PhantomData<::std::sync::MutexGuard<'static, ()>>";
-    let probe_not_send = !(dynamic && any_async); // don't-care: async + ref/Borrow (the code adds `T: Send` there)
+    // don't-care: async + ref/Borrow (the code adds `T: Send` there), and a method that takes `self` by value (likewise)
+    let probe_not_send = !(dynamic && any_async) && !byval_mut;
     if probe_not_send {
         if dynamic {
             let (tr, f) = if selector == 2 { ("AsRef", "as_ref") } else { ("::core::borrow::Borrow", "borrow") };
@@ -387,7 +407,7 @@ pub fn gen_case(t: &mut Tape) -> Case {
                 "pub struct NotSendApp {{ pub rec: Rec, pub g: {nsend_field} }}\nimpl {tr}<{dyn_ty}> for NotSendApp {{ fn {f}(&self) -> &({dyn_ty} + 'static) {{ &self.rec }} }}\n"
             ));
         } else {
-            src.push_str(&format!("pub struct NotSendApp {{ pub g: {nsend_field} }}\nimpl Sup for NotSendApp {{}}\n{at}impl Tr{targ} for NotSendApp {{\n"));
+            src.push_str(&format!("pub struct NotSendApp {{ pub g: {nsend_field} }}\nimpl Sup for NotSendApp {{}}\nimpl Sup2 for NotSendApp {{}}\nimpl Sup2 for ::entrait::Impl<NotSendApp> {{}}\n{at}impl Tr{targ} for NotSendApp {{\n"));
             for m in &methods {
                 src.push_str(&format!("    {} {}\n", m.sig(false).replace("u: U", u_impl), m.body()));
             }
@@ -404,7 +424,7 @@ pub fn gen_case(t: &mut Tape) -> Case {
         let mut sp = src.clone();
         match selector {
             0 | 1 => {
-                sp.push_str(&format!("pub struct BorrowedApp<'b> {{ pub x: &'b u8 }}\nimpl<'b> Sup for BorrowedApp<'b> {{}}\n{at}impl<'b> Tr{targ} for BorrowedApp<'b> {{\n"));
+                sp.push_str(&format!("pub struct BorrowedApp<'b> {{ pub x: &'b u8 }}\nimpl<'b> Sup for BorrowedApp<'b> {{}}\nimpl<'b> Sup2 for BorrowedApp<'b> {{}}\nimpl<'b> Sup2 for ::entrait::Impl<BorrowedApp<'b>> {{}}\n{at}impl<'b> Tr{targ} for BorrowedApp<'b> {{\n"));
                 for m in &methods {
                     sp.push_str(&format!("    {} {}\n", m.sig(false).replace("u: U", u_impl), m.body()));
                 }
@@ -487,6 +507,9 @@ pub fn gen_case(t: &mut Tape) -> Case {
         src.push_str("        if t_direct.len() != 1 { fails.push(format!(\"HARNESS: bump traced {} entries on the provider\", t_direct.len())); }\n");
         src.push_str("    }\n");
     }
+    if byval_mut {
+        src.push_str(&format!("/*GEN*/ {{ let got = <::entrait::Impl<App> as Tr{targ}>::consume(::entrait::Impl::new(mk_app()), 3); rt::expect_eq(&mut fails, \"provided `mut self` method through Impl<T>\", &got, &4); }}\n"));
+    }
     if selfless {
         src.push_str(&format!("    {{\n        let _ = rt::take();\n        let direct = <Rec as Tr{targ}>::make(5, 6);\n        let t_direct = rt::take();\n"));
         src.push_str(&format!("/*GEN*/ let via = <::entrait::Impl<App> as Tr{targ}>::make(5, 6);\n        let t_via = rt::take();\n"));
@@ -558,6 +581,12 @@ pub fn gen_case(t: &mut Tape) -> Case {
     }
     if send_super {
         classes.push("send_supertrait_with_a_dyn_selector");
+    }
+    if sup_for_some {
+        classes.push("supertrait_that_only_some_impl_t_have");
+    }
+    if byval_mut {
+        classes.push("defaulted_method_with_mut_self_by_value_under_deny_unused_mut");
     }
     if recv_fragment {
         classes.push("receiver_type_from_a_macro_rules_ty_fragment");
